@@ -77,8 +77,8 @@ Definition leaf_mirror (data : list N) (l : option (list phrase)) (s : option (N
   match l, s with
   | None, None => True
   | Some ps, Some (db, dl) =>
-    exists b, enc_phrases (sort_leaf ps) = Some b /\ slice_bytes data db dl = b /\ dl = len_N b /\
-              dl <> 0 /\ db + dl <= len_N data
+    exists b, Forall phrase_ok ps /\ enc_phrases (sort_leaf ps) = Some b /\ slice_bytes data db dl = b /\
+              dl = len_N b /\ dl <> 0 /\ db + dl <= len_N data
   | _, _ => False
   end.
 
@@ -265,7 +265,7 @@ Proof.
       assert (H16 : len_N b mod U16 = len_N b) by (apply N.mod_small; exact Hb16).
       exists (len_N data), (len_N b). split.
       * rewrite Hd1. rewrite <- app_assoc. cbn [app]. unfold r0. rewrite H32, H16. apply rec_at_middle.
-      * cbn [leaf_mirror]. exists b. split; [exact Hb|]. split.
+      * cbn [leaf_mirror]. exists b. split; [exact Hpok|]. split; [exact Hb|]. split.
         { rewrite Hd2. rewrite <- app_assoc. apply slice_bytes_middle. }
         split; [reflexivity|]. split.
         { intros Hz. destruct (sort_leaf ps) as [|p ps'] eqn:Es.
